@@ -54,7 +54,7 @@ COMPONENTS_STUB = ["zarr sync()/loop thread/thread pool -> SimLoop", "LocalStore
 EXPECTED_PROBES = ["split_at_zero", "double_interrupt", "clone_then_save", "clone_fallback_path_taken",
                    "plateau_scheduler_reduced_lr", "dataset_optimizer_present", "reload_zip",
                    "reload_dir", "opt_sgd", "opt_adam", "opt_adamw", "sched_cyclic", "sched_linear",
-                   "sched_exp", "obj_potential", "obj_pure_phase", "modes2", "slices2",
+                   "sched_exp", "obj_potential", "obj_pure_phase", "modes2", "slices2", "sched_cyclic_momentum", "sched_plateau_with_counters", "opt_extra_betas", "opt_extra_amsgrad", "opt_extra_weight_decay", "opt_extra_nesterov", "long_first_segment",
                    "clone_independence_checked", "clone_fallback_natural",
                    "save_then_continue_same_object", "reset_after_interruption"]
 RTOL = 1e-5   # candidate threshold; a candidate is a violation only beyond NOISE_FACTOR x measured drift
@@ -114,17 +114,54 @@ def setup():
 
 
 # ------------------------------------------------------------------------------------------
-def _gen_sched(r, kind):
+def _gen_sched(r, kind, opt_kind="adam"):
+    """Scheduler parameters incl. the sub-options set_scheduler forwards (a scheduler may carry
+    state or rewrite optimizer settings other than the lr: CyclicLR(cycle_momentum=True) rewrites
+    momentum / beta1 every step; ReduceLROnPlateau counts bad epochs and cooldown)."""
+    x = r.fork("subopts")
     if kind == "none":
         return {"type": "none"}
     if kind == "exp":
         return {"type": "exp", "gamma": r.pick([0.9, 0.7])}
     if kind == "linear":
-        return {"type": "linear", "start_factor": 0.2, "end_factor": 1.0, "total_iters": r.pick([3, 6])}
+        return {"type": "linear", "start_factor": x.pick([0.2, 0.2, 0.5, 1.0]),
+                "end_factor": x.pick([1.0, 1.0, 0.1]), "total_iters": r.pick([3, 6])}
     if kind == "cyclic":
-        return {"type": "cyclic", "step_size_up": r.pick([2, 3]), "step_size_down": 2}
-    return {"type": "plateau", "patience": 0, "cooldown": 0, "threshold": r.pick([0.5, 0.05]),
-            "factor": 0.5}
+        d = {"type": "cyclic", "step_size_up": r.pick([2, 3]), "step_size_down": 2}
+        if x.chance(0.5):
+            d["mode"] = x.pick(["triangular", "triangular2", "exp_range"])
+        if opt_kind != "sgd" and x.chance(0.45):
+            d["momentum"] = True      # cycle_momentum: needs momentum / beta1 in the optimizer
+        return d
+    return {"type": "plateau", "patience": x.pick([0, 0, 1, 2]), "cooldown": x.pick([0, 0, 1, 3]),
+            "threshold": r.pick([0.5, 0.05]), "factor": x.pick([0.5, 0.5, 0.1])}
+
+
+def _gen_opt_extra(r, opt_kind):
+    """Optimizer hyper-parameters other than the lr (forwarded verbatim to torch.optim)."""
+    d = {}
+    if opt_kind == "sgd":
+        if r.chance(0.3):
+            d["weight_decay"] = 1e-3
+    elif opt_kind == "sgd_momentum":
+        d["momentum"] = r.pick([0.9, 0.9, 0.5])
+        k = r.pick(["plain", "plain", "nesterov", "dampening"])
+        if k == "nesterov":
+            d["nesterov"] = True
+        elif k == "dampening":
+            d["dampening"] = 0.1
+        if r.chance(0.25):
+            d["weight_decay"] = 1e-3
+    else:
+        if r.chance(0.3):
+            d["betas"] = r.pick([[0.8, 0.95], [0.5, 0.9]])
+        if r.chance(0.25):
+            d["amsgrad"] = True
+        if r.chance(0.25):
+            d["weight_decay"] = r.pick([1e-2, 1e-3])
+        if r.chance(0.15):
+            d["eps"] = 1e-6
+    return d
 
 
 def gen(rng: Rng, tier, i):
@@ -137,14 +174,17 @@ def gen(rng: Rng, tier, i):
            "modes": rng.pick([1, 1, 2]), "opt": opt_kind, "keys": keys,
            "lr": {"object": rng.pick([5e-3, 2e-2]), "probe": rng.pick([1e-3, 5e-3]),
                   "dataset": rng.pick([1e-3, 1e-2])},
-           "sched": {k: _gen_sched(rng.fork(("s", k)), sched if rng.chance(0.8) else "none")
+           "sched": {k: _gen_sched(rng.fork(("s", k)), sched if rng.chance(0.8) else "none", opt_kind)
                      for k in keys},
+           "opt_extra": {k: _gen_opt_extra(rng.fork(("ox", k)), opt_kind) for k in keys},
            "constraints": rng.pick([{}, {"probe": {"orthogonalize_probe": False}},
                                     {"object": {"tv_weight_xy": 1e-3}},
                                     {"probe": {"center_probe": True}, "object": {"positivity": True}}]),
            "snapshots": rng.pick([None, None, 1, 2]), "rng": rng.randrange(10 ** 6),
            "loss": rng.pick(["l2_amplitude", "l2_amplitude", "l1_amplitude", "l2_intensity"])}
     ops = [{"op": "recon", "n": rng.pick([0, 1, 2, 3, 4])}]
+    if rng.fork("long").chance(0.04):      # something that only matters after many iterations
+        ops[0]["n"] = rng.fork("long").pick([12, 30, 60, 110])
     for j in range(rng.pick([2, 3, 4, 5])):
         r = rng.fork(("op", j))
         k = r.weighted([("recon", 4), ("reload", 4), ("clone", 2), ("clone_fallback", 1),
@@ -174,6 +214,8 @@ def _opt_params(cfg):
             out[k] = {"type": "sgd", "lr": cfg["lr"][k], "momentum": 0.9}
         else:
             out[k] = {"type": cfg["opt"], "lr": cfg["lr"][k]}
+        for a, b in (cfg.get("opt_extra") or {}).get(k, {}).items():
+            out[k][a] = tuple(b) if isinstance(b, list) else b
     return out
 
 
@@ -329,6 +371,16 @@ def run(plan):
     for k, s in cfg["sched"].items():
         if s["type"] != "none":
             bump(probes, "sched_" + s["type"])
+        if s.get("momentum"):
+            bump(probes, "sched_cyclic_momentum")
+        if s["type"] == "plateau" and (s.get("patience") or s.get("cooldown")):
+            bump(probes, "sched_plateau_with_counters")
+    for k, ox in (cfg.get("opt_extra") or {}).items():
+        for a in ox:
+            if a != "momentum":
+                bump(probes, "opt_extra_" + a)
+    if plan["ops"][0].get("n", 0) >= 12:
+        bump(probes, "long_first_segment")
     if cfg["obj_type"] != "complex":
         bump(probes, "obj_" + cfg["obj_type"])
     if cfg["modes"] == 2:
